@@ -98,10 +98,12 @@ def stream_mutants(r, tr, tier, res):
                     t = tr.clone()
                     t.streams[sidx][1][i].jumbo = data
                     out.append(Mut("jumbo-data", f"s{sidx} ev{i} {e.mcv} jumbo data {data[:12]!r}({len(data)})", t))
-                    # ... as the very last event of the stream
+                    # ... as the very last event of the stream (the thread still running: no OHe after it)
                     t = tr.clone()
                     ev = t.streams[sidx][1].pop(i)
                     ev.jumbo = data
+                    if t.streams[sidx][1][-1].mcv == "OHe":
+                        t.streams[sidx][1].pop()
                     ev.clock = t.streams[sidx][1][-1].clock
                     t.streams[sidx][1].append(ev)
                     out.append(Mut("jumbo-data-last", f"s{sidx} {e.mcv} jumbo data {data[:12]!r}({len(data)}) as last event", t))
@@ -214,6 +216,10 @@ def classify(m, tool, oc, err):
             return f"print-arg-short-payload:{tool}"
         if frame in ("loom_get_cpu", "load_cpus") or (m.op == "json-cpus" and oc == "signal:11"):
             return "load-cpus-null-cpus-array"
+        if frame == "task_type_create":
+            return "jumbo-string-unterminated"
+        if frame == "pre_type" and m.op.startswith("jumbo-data"):
+            return "jumbo-data-short"
         if "signed-overflow" in oc or (frame == "ovni_ev_size" and oc.startswith("ubsan")):
             return "evsize-int-overflow"
         if pk in ("evsize-negative-offset", "stream-header-overread", "evsize-int-overflow"):
